@@ -4,7 +4,7 @@ from lib import E, guarded
 from props import dlms_common as D
 
 RULE = ("sessions of GET / SET / ACTION operations on one association of a real DlmsClient over a scripted io_interface: "
-        "attribute data of 0..100000 bytes split into 2..200 blocks of any sizes (empty blocks included) or one normal "
+        "attribute data of 0..100000 bytes split into 2..200 blocks of any sizes (empty blocks included; blocks of 126..129, 255..257, 65535/65536 bytes - the boundaries of the length prefix) or one normal "
         "response, every DataAccessResult as immediate error and on the last block, SET results, ACTION statuses with and "
         "without data, unexpected answers; plain, pre-established and ciphered (general-glo-ciphering, suite 0) connections. "
         "The same session runs on the model (abstract APDUs). search: returned bytes = concatenation, acknowledgements carry "
@@ -136,6 +136,11 @@ def make_session(r, ctx, nops):
             data = bytes(r.getrandbits(8) for _ in range(n)) if n < 5000 else bytes(n)
             nb = r.choice([2, 2, 3, 5, 17]) if r.random() < 0.85 else r.choice([60, 200])
             parts = split(data, nb, r)
+            if r.random() < 0.3:
+                # blocks whose length sits on a boundary of the A-XDR length prefix (127/128/129, 255/256/257, 65535/65536)
+                edge = [r.choice([126, 127, 128, 129, 255, 256, 257]) if r.random() < 0.9 else r.choice([65535, 65536]) for _ in range(nb)]
+                parts = [bytes(r.getrandbits(8) for _ in range(e)) if e < 5000 else bytes(e) for e in edge]
+                data = b"".join(parts)
             start = r.choice([1, 1, 0, 7, 2 ** 32 - nb - 1])
             for j, p in enumerate(parts):
                 responses.append([11 if j == nb - 1 else 10, p, start + j, iid, 0])
